@@ -715,6 +715,7 @@ namespace link_layer {
                 : started_( false )
                 , enabled_( false )
                 , count_( 0 )
+                , scheduled_( false )
             {}
 
             void start_advertising()
@@ -724,7 +725,7 @@ namespace link_layer {
                 count_   = 0;
                 enabled_ = true;
 
-                if ( start && started_ )
+                if ( start && started_ && !scheduled_ )
                     static_cast< Advertiser& >( *this ).handle_start_advertising();
             }
 
@@ -741,7 +742,7 @@ namespace link_layer {
                 count_ = count;
                 enabled_ = true;
 
-                if ( start && started_ )
+                if ( start && started_ && !scheduled_ )
                     static_cast< Advertiser& >( *this ).handle_start_advertising();
             }
 
@@ -766,7 +767,8 @@ namespace link_layer {
                         enabled_ = false;
                 }
 
-                started_ = true;
+                started_   = true;
+                scheduled_ = result;
                 return result;
             }
 
@@ -781,18 +783,22 @@ namespace link_layer {
                         enabled_ = false;
                 }
 
+                scheduled_ = result;
                 return result;
             }
 
             void end_of_advertising_events()
             {
-                started_ = false;
-                enabled_ = false;
+                started_   = false;
+                enabled_   = false;
+                scheduled_ = false;
             }
         private:
             volatile bool       started_;
             volatile bool       enabled_;
             volatile unsigned   count_;
+            // an advertisement is scheduled: adv_timeout() / adv_received() will continue (or end) the advertising
+            volatile bool       scheduled_;
         };
         /** @endcond */
     };
